@@ -815,13 +815,20 @@ def scenarios(ctx_pid, quick):
                 else '', '' if kw.get('scattered', True) else '/cont')
             out.append(mk_scenario(nm, family, layout, shapes, bulks=b, **kw))
 
-    n = 3 if quick else 4
-
     # whole cores / gpus ------------------------------------------------------
-    core = ['c1', 'r2', 'c2', 'r3'] + ([] if quick else ['c0', 'r4'])
-    for lay in ('L1x4g2', 'L3x2') + (() if quick else ('L2x2g1lm',)):
-        for combo in itertools.product(core, repeat=n):
+    core = ['c1', 'r2', 'c2', 'r3']
+    for lay in ('L1x4g2', 'L3x2'):
+        for combo in itertools.product(core, repeat=3):
             add('core', lay, list(combo))
+    if not quick:
+        # four tasks over the basic alphabet; three over the extended one
+        for lay in ('L1x4g2', 'L3x2'):
+            for combo in itertools.product(core, repeat=4):
+                add('core', lay, list(combo))
+        for lay in ('L1x4g2', 'L3x2', 'L2x2g1lm'):
+            for combo in itertools.product(core + ['c0', 'r4'], repeat=3):
+                if set(combo) & {'c0', 'r4'}:
+                    add('core', lay, list(combo))
     gpu = ['g1', 'r2g1', 'g2', 'c1']
     for lay in ('L1x4g2', 'L2x2g1'):
         for combo in itertools.product(gpu, repeat=3):
